@@ -238,6 +238,9 @@ inductive Q
   | begin | commit | rollback
   /-- a statement that raises a Snowflake ProgrammingError (missing table, …) -/
   | fail
+  /-- a request body that cannot be decoded (empty, not gzip, not JSON, no `sqlText`): only reached after `to_conn`
+      accepted the token; what an authenticated session gets for it is outside the model -/
+  | malformed
   deriving DecidableEq, Repr
 
 inductive Req
@@ -286,6 +289,7 @@ def runQ (se : Sess) (data : List (Nat × Int)) : Q → Sess × List (Nat × Int
   /- `query_request` answers the error JSON and does nothing else; in-process `execute` raises and does nothing else:
      an open transaction and its pending writes stay exactly as they were -/
   | .fail => (se, data, .error)
+  | .malformed => (se, data, .unsupported)
 
 def step (s : Srv) : Req → Srv × Resp
   | .login tok b schema =>
